@@ -4,6 +4,7 @@ import (
 	"encoding/json"
 	"errors"
 	"fmt"
+	"math"
 	"reflect"
 	"sort"
 	"strings"
@@ -79,12 +80,17 @@ func textOf(cs []int, pads []Pad, inSource bool) string {
 type Piece struct {
 	W *string `json:"w,omitempty"`
 	C []int   `json:"c,omitempty"`
+	// a source text with slots: every "%I" in Subst is replaced by the text With
+	Subst *string `json:"subst,omitempty"`
+	With  []int   `json:"with,omitempty"`
 }
 
 func sourceOf(ps []Piece, pads []Pad) string {
 	var sb strings.Builder
 	for _, p := range ps {
-		if p.W != nil {
+		if p.Subst != nil {
+			sb.WriteString(strings.ReplaceAll(*p.Subst, "%I", textOf(p.With, nil, false)))
+		} else if p.W != nil {
 			sb.WriteString(*p.W)
 		} else {
 			sb.WriteString(textOf(p.C, pads, true))
@@ -462,6 +468,17 @@ func resolvePads(tp map[string][]Piece, pads []Pad) []Pad {
 
 type namedString string
 
+// errValue: an error type with a value receiver (a nil *errValue is a non-nil error interface)
+type errValue struct{ s string }
+
+func (e errValue) Error() string { return e.s }
+
+// S8: value-receiver method Name, pointer-receiver method Amend(string) that sorts before it
+type S8 struct{ X int }
+
+func (s S8) Name() string  { return "n" }
+func (s *S8) Amend(string) {}
+
 // defined and sized Go types with a scalar underlying type: the engine sees them only through reflection
 type (
 	flagT  bool
@@ -629,6 +646,57 @@ func shapeOfKind(kind string) interface{} {
 		return S5{S3: S3{Z: 4, Base: Base{W: "w", X: 3}}, Q: 6}
 	case "methods":
 		return &S6{X: 7}
+	case "biglist": // more than 50 elements, some of them not hashable
+		out := make([]interface{}, 60)
+		for i := range out {
+			out[i] = i
+		}
+		out[3] = []interface{}{1}
+		out[7] = map[string]interface{}{"k": 1}
+		out[11] = nil
+		out[13] = "5"
+		return out
+	case "bigints":
+		out := make([]int, 70)
+		for i := range out {
+			out[i] = i
+		}
+		return out
+	case "maxint":
+		return math.MaxInt64
+	case "minint":
+		return math.MinInt64
+	case "float0":
+		return 0.0
+	case "floatbig":
+		return 1e300
+	case "nan":
+		return math.NaN()
+	case "strregex":
+		return "z-a"
+	case "strbracket":
+		return "[^"
+	case "strbackslash":
+		return "a\\"
+	case "struni":
+		return "\u023a\u0130\u212a"
+	case "niltime":
+		var t *time.Time
+		return t
+	case "nilstringer":
+		var p *stringerValue
+		return p
+	case "nilerr":
+		var p *errValue
+		return p
+	case "mapiface":
+		return map[interface{}]interface{}{"a": 1, 2: "b", 2.5: nil}
+	case "uintmap":
+		return map[uint16]string{3: "c", 1: "a", 2: "b"}
+	case "listoflists":
+		return []interface{}{[]interface{}{1, 2}, []interface{}{}, map[string]interface{}{"a": []int{1}}}
+	case "mixedrecv": // pointer to a struct whose pointer-only method (with a parameter) sorts before its value method
+		return &S8{X: 3}
 	case "ptrptr":
 		return &p5
 	case "nilslice":
